@@ -38,3 +38,26 @@ Theorem C04_source_line_insert : forall l col n c, g_line_insert l col n c =~ li
 Proof. exact tie_line_insert. Qed.
 Check C04_source_line_insert : forall l col n c, g_line_insert l col n c =~ line_insertM col n c l.
 Print Assumptions C04_source_line_insert.
+
+From Avt Require Import Gen.RestFns Proofs.RestTie.
+(** SOURCE TIE BY PROOF (translate/rest2coq.py -> Gen/RestFns.v): the Rust function is REGENERATED on every run (u8/u16/u32/char as N with exact casts, isize as Z with guards on `as usize`, loops as folds or fuelled fixpoints, every Rust panic condition as a guard) and the hand-written model function is proved equal to it (=~ : equal up to the panic-site number) *)
+(** Charset::translate regenerated *)
+Theorem C04_source_translate : forall cs c, g_charset_translate cs c =~ translate cs c.
+Proof. exact tie_charset_translate. Qed.
+Check C04_source_translate : forall cs c, g_charset_translate cs c =~ translate cs c.
+Print Assumptions C04_source_translate.
+
+From Avt Require Import Gen.TermFns Proofs.TermTie Proofs.TermTieW Proofs.TermTieX.
+(** SOURCE TIE BY PROOF (translate/term2coq.py -> Gen/TermFns.v, W-mode): the method of `impl Terminal` is REGENERATED from src/terminal.rs on every run as a function over the scalar record `zt` and an abstract world behind the interface `zops` (recorded calls of the buffer / tabs / dirty-line primitives with their evaluated arguments, queries for tab stops / cells / charset translation); instantiated with the model's own primitives (`Om`) it is proved equal to the hand-written model function, panics included: the model performs exactly the primitive calls the Rust text performs - same arguments, order, marked rows, erase modes, case splits *)
+(** Terminal::print: deferred wrap, last-column rule, insert vs overwrite, charset translation, marked rows *)
+Theorem C04_source_terminal_print : forall t c, ZW t -> w_print Om (zabs t) (wabs t) (Z.of_N c) = wres (print t c).
+Proof. exact w_print_eq. Qed.
+Check C04_source_terminal_print : forall t c, ZW t -> w_print Om (zabs t) (wabs t) (Z.of_N c) = wres (print t c).
+Print Assumptions C04_source_terminal_print.
+
+(** Terminal::rep *)
+Theorem C04_source_terminal_rep : forall t n, TInv t -> w_rep Om (zabs t) (wabs t) (Z.of_N n) = wres (rep t n).
+Proof. exact w_rep_eq. Qed.
+Check C04_source_terminal_rep : forall t n, TInv t -> w_rep Om (zabs t) (wabs t) (Z.of_N n) = wres (rep t n).
+Print Assumptions C04_source_terminal_rep.
+
